@@ -242,6 +242,17 @@ def check_c12(pid, tier, seed, replay):
             q = out_soup(rng, rng.randint(1, 5))
             lines = [{"kind": "code", "cmds": q}, {"kind": "clear"}] + lines
         tc.append({"lines": lines})
+    # jumps, labels and return jumps before and after `clear`: everything a session accumulates
+    # (labels, last jump source, selected stack, command log) must be gone afterwards
+    for i in range(60 if quick else 1500):
+        a = M.retjump_soup(rng, rng.randint(5, 10))
+        b = M.retjump_soup(rng, rng.randint(5, 10))
+        if rng.random() < 0.5:
+            b = [M.C(0, 1, 0), M.C(0, 70, 1), M.C(1, 1, 1), M.C(1, 1, 3, [63, 113, 0])] + b      # an early conditional return
+        k = rng.randint(1, len(a))
+        tc.append({"lines": [{"kind": "code", "cmds": a[:k]}, {"kind": "code", "cmds": a[k:]}, {"kind": "clear"},
+                             {"kind": "code", "cmds": b}] if k < len(a) else
+                            [{"kind": "code", "cmds": a}, {"kind": "clear"}, {"kind": "code", "cmds": b}]})
     work = tmpdir("c12_T")
     cpath = os.path.join(work, "cases.json")
     M.write_cases(cpath, tc)
@@ -287,6 +298,8 @@ def scenarios(rng, quick):
         "readloop": M.CAT_LOOP,
         "loops": M.infinite_a(),
         "count": M.one_to_n(8),
+        "astral": M.print_cps([0x10000, 0x41]) + M.print_cps([0x1F600, 0x80], 2) + M.print_cps([0x10FFFF]),
+        "astral-then-read": M.print_cps([0x10FFFF], 2) + [C(5, 1, 0), C(1, 1, 1)],
     }
     texts = {k: M.prog_text(v).encode() for k, v in kinds.items()}
     stdins = [b"", b"abc\n", b"x", "한글\n".encode(), b"ok\n\xff\xfe\n", b"\xff", b"ab\xc3", b"a\nb\n\xed\xa0\x80\nc", b"\n\n", bytes(range(1, 128)) + b"\n"]
